@@ -68,7 +68,10 @@ ROUTES = ('ctor', 'set_rules', 'file', 'ctor+own', 'set_rules+own',
           'file-appears',
           # policy.d held a second file that defined the otherwise unknown
           # name; it was loaded, then removed (nothing else touched)
-          'dir-removed')
+          'dir-removed',
+          # the policy file is loaded and then rewritten a quarter of a second
+          # later, inside the same whole second
+          'file-rewritten-at-once')
 
 
 def bound(tier):
@@ -196,6 +199,16 @@ def build(P, parse_rule, ruleset, cfg, route, w):
         for q in QUERIES:
             enf.enforce(q, {}, {'roles': []})
         w.delete('policy.d/extra.yaml')
+        return enf
+    if route == 'file-rewritten-at-once':
+        w.clock.align()
+        w.write('policy.yaml', world.dumps_policy({'earlier': '@',
+                                                   'zz': '@', 'x': '@'}))
+        conf = world.new_conf(w.root, **overrides)
+        enf = P.Enforcer(conf, **kw)
+        for q in QUERIES:
+            enf.enforce(q, {}, {'roles': []})
+        w.write('policy.yaml', world.dumps_policy(ruleset))
         return enf
     if route == 'file+late':
         in_file = {k: v for k, v in ruleset.items() if k != 'x'}
